@@ -191,6 +191,21 @@ func c17Door(r *core.Result, curve, doorName string, n int, seed int64) {
 			}
 			return p2.X(), p2.Y(), name(p2.Curve()), nil
 		}
+		// the legacy form without a curve tag (old save files): decoded on the process-wide default curve, validated all the same
+		doors["UnmarshalJSON(no curve tag)"] = func(x, y *big.Int) (*big.Int, *big.Int, string, error) {
+			prev := tss.EC()
+			tss.SetCurve(ec)
+			defer tss.SetCurve(prev)
+			payload, _ := json.Marshal(map[string]any{"Coords": []*big.Int{x, y}})
+			var p crypto.ECPoint
+			if err := json.Unmarshal(payload, &p); err != nil {
+				return nil, nil, "", err
+			}
+			if !p.IsOnCurve() || !p.ValidateBasic() {
+				return nil, nil, "", fmt.Errorf("accepted but IsOnCurve/ValidateBasic false")
+			}
+			return p.X(), p.Y(), name(p.Curve()), nil
+		}
 	case "Gob":
 		// Gob carries no curve tag: the decoder uses the process-global curve, which this case sets (and restores)
 		prev := tss.EC()
@@ -413,8 +428,47 @@ func c17Laws(r *core.Result, curve string, n int, seed int64) {
 		if e1 != nil || e2 != nil {
 			continue
 		}
-		if !ab.Equals(ba) {
+		if !ab.Equals(ba) || !samePt(ab, refPt(ba)) {
 			r.Fail("commutative", "A+B != B+A")
+		}
+		// Equals is equality of both coordinates (and of the curve)
+		fp := fieldP(curve)
+		if cp, err := crypto.NewECPoint(ecOf(curve), new(big.Int).Set(A.X()), new(big.Int).Set(A.Y())); err != nil || !A.Equals(cp) || !cp.Equals(A) {
+			r.Fail("equals:copy", "a point does not equal a copy of itself")
+		}
+		if A.Y().Sign() != 0 {
+			if flipY, err := crypto.NewECPoint(ec, new(big.Int).Set(A.X()), new(big.Int).Sub(fp, A.Y())); err == nil && (A.Equals(flipY) || flipY.Equals(A)) {
+				r.Fail("equals:same-x", "Equals holds for (x,y) and (x,p-y)")
+			}
+		}
+		if isEd(curve) && A.X().Sign() != 0 {
+			if flipX, err := crypto.NewECPoint(ec, new(big.Int).Sub(fp, A.X()), new(big.Int).Set(A.Y())); err == nil && (A.Equals(flipX) || flipX.Equals(A)) {
+				r.Fail("equals:same-y", "Equals holds for (x,y) and (p-x,y)")
+			}
+		}
+		if A.Equals(B) || A.Equals(nil) {
+			r.Fail("equals:different", "Equals holds for two different points / for nil")
+		}
+		// A + (-A): the identity. On secp256k1 it has no affine representation (an error is the right answer); on
+		// ed25519 it is (0,1). Either way no invalid point may come back with a nil error.
+		negA := refNeg(curve, refPt(A))
+		if nA, err := crypto.NewECPoint(ec, negA.X, negA.Y); err == nil {
+			sum, err := A.Add(nA)
+			switch {
+			case err != nil:
+				if isEd(curve) {
+					r.Fail("add:inverse", "A + (-A) fails on ed25519: %v", err)
+				}
+			case sum == nil || !sum.IsOnCurve() || !sum.ValidateBasic():
+				r.Fail("add:inverse-invalid-point", "A + (-A) returned an invalid point with a nil error")
+			case isEd(curve) && (sum.X().Sign() != 0 || sum.Y().Cmp(big1) != 0):
+				r.Fail("add:inverse", "A + (-A) is not the identity on ed25519")
+			case !isEd(curve):
+				r.Fail("add:inverse", "A + (-A) returned a point on secp256k1")
+			}
+			r.Count("inverse_additions", 1)
+		} else {
+			r.Fail("neg", "-A refused by NewECPoint: %v", err)
 		}
 		if !samePt(ab, refAdd(curve, refPt(A), refPt(B))) {
 			r.Fail("add", "A+B differs from the reference")
